@@ -11,6 +11,7 @@
 //!        E<e> fire event   O<g> open gate   X<q> drop this program's handle of object q
 //!        I<q>k<k> pipe_in stream k into object q   J<q>k<k>d<d> pipe stream k through q (depth d, 0 = default); output kept by the caller
 //!        c<k>-<k2> declares that the closure of the pipe reading stream k owns a closer of stream k2 (released closure => stream k2 ends)
+//!        p<q> the caller panics while it owns this program's handle of object q (the object is dropped during the unwinding; real threads only)
 //!        k<q> a job scheduled on object q drops the caller's output stream
 //!        j<k>n<n> produce n GATED items (their processing waits until the consumer has received every earlier item)
 //!        g<k>n<n> produce n SLOW items (their processing yields co-operatively once, holding the object across the yield)   G<k>n<n> produce n items on stream k   H<k> end stream k   N<n> consume n outputs (0 = until the end)   K drop the output stream
@@ -54,6 +55,8 @@ pub enum Op {
     Pipe(usize, usize, usize),
     Produce(usize, usize),
     ProduceSlow(usize, usize),
+    /// `p<q>`: the caller takes this program's handle of object q and panics while it owns it: the object is dropped by the unwinding thread
+    PanicDrop(usize),
     /// `c<k>-<k2>`: declaration (no run-time effect of its own): the closure of the pipe that reads stream k owns a closer of stream k2 -
     /// when that closure is released, stream k2 ends (chained pipes)
     ChainClose(usize, usize),
@@ -135,6 +138,7 @@ pub fn fmt_op(o: &Op) -> String {
         Op::CloseStream(k) => format!("H{}", k),
         Op::Consume(n) => format!("N{}", n),
         Op::DropStream => "K".into(),
+        Op::PanicDrop(q) => format!("p{}", q),
         Op::ChainClose(k, k2) => format!("c{}-{}", k, k2),
         Op::DropStreamInJob(q) => format!("k{}", q),
         Op::AwaitRelease(k) => format!("Z{}", k),
@@ -244,6 +248,7 @@ fn parse_op(cs: &[char], i: &mut usize) -> Result<Op, String> {
         'H' => Op::CloseStream(parse_num(cs, i)?),
         'N' => Op::Consume(parse_num(cs, i)?),
         'K' => Op::DropStream,
+        'p' => Op::PanicDrop(parse_num(cs, i)?),
         'c' => { let k = parse_num(cs, i)?; expect_ch(cs, i, '-')?; Op::ChainClose(k, parse_num(cs, i)?) }
         'k' => Op::DropStreamInJob(parse_num(cs, i)?),
         'Z' => Op::AwaitRelease(parse_num(cs, i)?),
